@@ -26,6 +26,9 @@ FbRun(e) == /\ Chk(e.calls = Rounds(e.T), "rounds_in_order")
 
 MacRun(e) == /\ Chk(e.calls = MacCalls(e.encs, e.D), "encoders_in_user_order_one_constraint_one_channel")
              /\ Chk(e.constraint_in = SumSeqs(e.encoded), "superposition_is_the_sum")
+             \* the superposition is a new signal: the users' encoded signals and messages are what they were before the run
+             /\ Chk(e.encoded_after = e.encoded, "encoded_signals_not_overwritten_by_the_superposition")
+             /\ Chk(e.messages_unchanged, "messages_not_modified")
 
 WzRun(e) == Chk(e.calls = WzCalls(e.hasQ, e.hasS, e.hasC, e.needCorr), "wyner_ziv_stage_order")
 
